@@ -996,6 +996,54 @@ func (lw *linWorld) exec(cl *linClient, idx int, t linTmpl) {
 	}
 }
 
+// linHot: per run one subscription pattern and one registration (procedure,
+// policy) that most operations share, so that subscriptions with several
+// subscribers and shared registrations with three and more callees occur.
+type linHot struct {
+	sub    [2]string
+	topic  string
+	reg    [2]string
+	invoke string
+	proc   string
+}
+
+func genLinHot(g *Rand) linHot {
+	h := linHot{sub: PickOf(g, linSubPats[:7]), reg: PickOf(g, linRegPats[:7]), invoke: PickOf(g, linInvokes[1:])}
+	for _, t := range linTopics {
+		if MMatches(t, h.sub[0], h.sub[1]) {
+			h.topic = t
+		}
+	}
+	for _, p := range linProcs {
+		if MMatches(p, h.reg[0], h.reg[1]) {
+			h.proc = p
+		}
+	}
+	return h
+}
+
+func genLinTmplHot(g *Rand, fl linFlavour, h linHot) linTmpl {
+	t := genLinTmpl(g, fl)
+	if !g.Chance(3, 5) {
+		return t
+	}
+	switch t.Kind {
+	case "sub":
+		t.URI, t.Match = h.sub[0], h.sub[1]
+	case "pub":
+		if h.topic != "" {
+			t.URI = h.topic
+		}
+	case "reg":
+		t.URI, t.Match, t.Invoke = h.reg[0], h.reg[1], h.invoke
+	case "call":
+		if h.proc != "" {
+			t.URI = h.proc
+		}
+	}
+	return t
+}
+
 func genLinTmpl(g *Rand, fl linFlavour) linTmpl {
 	t := linTmpl{R1: g.Intn(1000), R2: g.Intn(1000), ExclMe: g.Chance(3, 5), Ack: g.Chance(3, 4), Abrupt: g.Chance(1, 4)}
 	var k int
@@ -1072,10 +1120,11 @@ func runLin(c *Ctx, fl linFlavour) {
 	}
 	scripts := make([][]linTmpl, ncl)
 	n := 0
+	hot := genLinHot(g)
 	for i := range scripts {
 		k := g.Range(2, per)
 		for j := 0; j < k; j++ {
-			scripts[i] = append(scripts[i], genLinTmpl(g, fl))
+			scripts[i] = append(scripts[i], genLinTmplHot(g, fl, hot))
 		}
 		n += k
 	}
